@@ -184,7 +184,7 @@ def rpcfail_points(base_steps):
 def stray_points(base_steps, sc, rng, limit):
     out = []
     nc, n = len(sc["pol"]), sc["n"]
-    kinds = ["Schedule", "Run", "Consts", "Validate", "MsgBad", "MsgEarly", "RunEarly", "ConstsBad"]
+    kinds = ["Schedule", "Run", "Consts", "Validate", "MsgBad", "MsgEarly", "RunEarly", "ConstsBad", "MsgSelf"]
     pts = [(k, c, p, t) for k in range(len(base_steps) + 1) for c in range(1, nc + 1) for p in range(n) for t in kinds]
     if limit and len(pts) > limit:
         pts = rng.sample(pts, limit)
@@ -449,7 +449,7 @@ def check_server(prop, tier, replay):
                 for x in a.get("strays", []):
                     k = x.split(":")[0]
                     got[k] = got.get(k, 0) + 1
-        kinds = ["Schedule", "Run", "Consts", "Validate", "MsgBad", "MsgEarly", "RunEarly", "ConstsBad"]
+        kinds = ["Schedule", "Run", "Consts", "Validate", "MsgBad", "MsgEarly", "RunEarly", "ConstsBad", "MsgSelf"]
         v.coverage["stray_commands_answered"] = {k: got.get(k, 0) for k in kinds}
         for k in kinds:
             if got.get(k, 0) == 0:
